@@ -16,6 +16,9 @@ from .tape import Tape, shrink
 
 VERIF = os.path.dirname(os.path.dirname(os.path.abspath(__file__)))
 REPO = os.path.abspath(os.environ.get("VERIF_REPO", "/repo"))
+# sensitivity runs against scratch trees must not overwrite the evidence / replays of the real tree
+EVIDENCE_DIR = os.environ.get("VERIF_EVIDENCE_DIR") or os.path.join(VERIF, "evidence")
+REPLAY_DIR = os.environ.get("VERIF_REPLAY_DIR") or os.path.join(VERIF, "replays")
 _clock = time.perf_counter     # never the patched time.time
 
 
@@ -230,8 +233,8 @@ def check(prop, tier, base_seed, runs, budget_s, workers, meta, batch=None, out=
             res, small_used = replay_tape(prop, tier, used2)
             fv = res.first(prop)
         known = match_finding(findings, prop, fv[1], fv[2])
-        os.makedirs(os.path.join(VERIF, "replays"), exist_ok=True)
-        path = os.path.join(VERIF, "replays", f"{prop}-{fv[1]}-{seed}.json")
+        os.makedirs(REPLAY_DIR, exist_ok=True)
+        path = os.path.join(REPLAY_DIR, f"{prop}-{fv[1]}-{seed}.json")
         with open(path, "w") as f:
             json.dump(dict(property=prop, tier=tier, seed=seed, run_index=idx, base_seed=base_seed,
                            clause=fv[1], shape=fv[2], message=fv[3], digest=res.digest,
@@ -253,8 +256,8 @@ def check(prop, tier, base_seed, runs, budget_s, workers, meta, batch=None, out=
         try:
             pbad, post_info = eng.post_check(prop, tier, base_seed)
             for clause, shape, msg, seed in pbad:
-                os.makedirs(os.path.join(VERIF, "replays"), exist_ok=True)
-                path = os.path.join(VERIF, "replays", f"{prop}-{clause}-{seed}.json")
+                os.makedirs(REPLAY_DIR, exist_ok=True)
+                path = os.path.join(REPLAY_DIR, f"{prop}-{clause}-{seed}.json")
                 t_ = Tape(seed=seed)
                 eng.run(t_, prop, tier)
                 with open(path, "w") as f:
@@ -306,8 +309,8 @@ def check(prop, tier, base_seed, runs, budget_s, workers, meta, batch=None, out=
     )
     if harness_error:
         ev["coverage"]["harness_error"] = harness_error[-2000:]
-    os.makedirs(os.path.join(VERIF, "evidence"), exist_ok=True)
-    with open(os.path.join(VERIF, "evidence", f"{prop}.json"), "w") as f:
+    os.makedirs(EVIDENCE_DIR, exist_ok=True)
+    with open(os.path.join(EVIDENCE_DIR, f"{prop}.json"), "w") as f:
         json.dump(ev, f, indent=1, default=str)
     for ln in lines:
         print(ln, file=out)
